@@ -1,20 +1,24 @@
 /-
-  TAP <internal key hex> <script hex>,<script hex>,... <index|-> [<arg hex>,<arg hex>,...|-] [<hrp>]
+  TAP <internal key hex> <script hex>,<script hex>,... <index|-> [<arg hex>,<arg hex>,...|-] [<hex of the address prefix|-> [ignored words]]
       the `tap` tool on decoded arguments (model: Btcdeb/Model/Tap.lean; spec: BIP341 on the tree of the same shape).
-      Answer: key=<output key> parity=<0|1> addr_program=<witness program of the address> control=<hex|-> script=<hex|->
-              witness=<items|-> txwitness=<items> root=<merkle root> tweak=<hex>      or  ERR <reason>
+      Answer: key=<output key> parity=<0|1> addr_program=<witness program> address=<bech32m text> control=<hex|-> script=<hex|->
+              witness=<items|-> txwitness=<items> root=<merkle root> tweak=<hex>      or  ERR <reason> / ABORT bech32-assert
       (`txwitness` = what goes into the spending transaction when --tx and --txin are given without --sig: the placeholder
-      signature first.)  TODO(integration): the address text itself is `bech32m hrp 1 addr_program`; bech32m is a parameter of
-      `Model.Tap.run` (Btcdeb/Model/Encodings.lean is written elsewhere), so the driver prints the program and the check
-      encodes/decodes the address.
+      signature first.)  The model's address is `bech32::Encode` as modelled in Btcdeb/Model/Encodings.lean
+      (`Model.Tap.bech32mAddress`); the spec's is BIP350's `bech32_encode` (Btcdeb/Spec/Encodings.lean) and requires a valid
+      human readable part (BIP173: 1..83 characters in 33..126, here also lower case as an encoder must emit).
   TAPARGS <hex of positional argument 1> <hex of positional argument 2> ...
       the `tap` tool on its positional command line arguments (model only; the spec voice repeats the model)
+  TAPSIGHASH <spending tx hex, witness as tap wrote it> <input tx hex>
+      the signature hash tap reports (model: `Tap.calcSighash` = configure_tx_txin + Instance::calc_sighash;
+      spec: the BIP341/342 digest for hash type 0x00 with the one spent output)
   An empty script / argument inside a comma list is written `_`, an empty list `-`.
 -/
 import Btcdeb
 import Btcdeb.Model.Tap
 import Driver.Run
 import Driver.Value
+import Driver.Sighash
 open Btcdeb
 namespace Driver
 
@@ -33,19 +37,27 @@ def tapErrStr : Model.Tap.Err → String
   | .spendingLeaf => "ERR spending-leaf"
   | .keyParse => "ERR key-parse"
   | .tweak => "ERR tweak"
+  | .pubkeyMismatch => "ERR pubkey-mismatch"
+  | .addressAssert => "ABORT bech32-assert"
 
 def tapList (l : List Bytes) : String := if l.isEmpty then "-" else ",".intercalate (l.map tapItem)
 
 def tapOutStr (o : Model.Tap.Output) : String :=
   let opt := fun (x : Option Bytes) => match x with | some b => tapItem b | none => "-"
-  s!"key={toHex o.outputKey} parity={if o.odd then 1 else 0} addr_program={toHex o.outputKey} control={opt o.control} script={opt o.script} witness={tapList o.witness} txwitness={tapList (Model.Tap.txWitness [] o)} root={toHex o.root} tweak={toHex o.tweak}"
+  s!"key={toHex o.outputKey} parity={if o.odd then 1 else 0} addr_program={toHex o.outputKey} address={if o.address.isEmpty then "-" else o.address} control={opt o.control} script={opt o.script} witness={tapList o.witness} txwitness={tapList (Model.Tap.txWitness [] o)} root={toHex o.root} tweak={toHex o.tweak}"
 
-/-- the address itself is rendered by the check (bech32m lives in another module): the driver prints the program -/
-def noBech (_ : String) (_ : Nat) (_ : Bytes) : String := ""
+/-- BIP173: the human readable part is 1..83 US-ASCII characters in 33..126; an encoder emits lower case -/
+def hrpValid (hrp : String) : Bool :=
+  let b := hrp.toUTF8.toList
+  1 ≤ b.length && b.length ≤ 83 && b.all (fun c => 33 ≤ c.toNat && c.toNat ≤ 126 && !(65 ≤ c.toNat && c.toNat ≤ 90))
+
+/-- BIP350 address: `bech32_encode(hrp, [version] + convertbits(program, 8, 5), bech32m)` -/
+def specAddress (hrp : String) (ver : Nat) (prog : Bytes) : String :=
+  Model.strOfBytes (Spec.bech32Encode .bech32m hrp.toUTF8.toList (ver :: Spec.regroupPad 8 5 (prog.map UInt8.toNat)))
 
 /-- BIP341 on the tree of the shape tap builds: root, output key, control block from the spec's own functions;
     the result is shown only if `bip341Valid` accepts it -/
-def tapSpec (internal : Bytes) (scripts : List Bytes) (sel : Option (Nat × List Bytes)) : String :=
+def tapSpec (hrp : String) (internal : Bytes) (scripts : List Bytes) (sel : Option (Nat × List Bytes)) : String :=
   let o := Glue.tapOracle
   if internal.length ≠ 32 then "ERR key-length"
   else if scripts.length < 1 || scripts.length > 1024 then "ERR script-count"
@@ -63,8 +75,9 @@ def tapSpec (internal : Bytes) (scripts : List Bytes) (sel : Option (Nat × List
       | none => "ERR tweak"
       | some (q, odd) =>
         if !Spec.isOutputKey o internal root q odd then "SPEC-INVALID output key"
+        else if !hrpValid hrp then "ERR invalid-hrp"
         else
-          let head := s!"key={toHex q} parity={if odd then 1 else 0} addr_program={toHex q}"
+          let head := s!"key={toHex q} parity={if odd then 1 else 0} addr_program={toHex q} address={specAddress hrp 1 q}"
           let tail := s!"root={toHex root} tweak={toHex (o.taggedHash "TapTweak" (internal ++ root))}"
           match sel with
           | none => head ++ s!" control=- script=- witness=- txwitness={tapList [Model.Tap.placeholderSignature]} " ++ tail
@@ -79,7 +92,7 @@ def tapSpec (internal : Bytes) (scripts : List Bytes) (sel : Option (Nat × List
                 head ++ s!" control={tapItem control} script={tapItem script} witness={tapList wit} txwitness={tapList (Model.Tap.placeholderSignature :: wit)} " ++ tail
 
 def cmdTap (spec : Bool) (a : List String) : String :=
-  let go := fun (k sc ix ar : String) =>
+  let go := fun (k sc ix ar hrp : String) =>
     match ofHex k, tapItems sc, tapItems ar with
     | some internal, some scripts, some args =>
       let sel : Option (Option (Nat × List Bytes)) :=
@@ -87,27 +100,69 @@ def cmdTap (spec : Bool) (a : List String) : String :=
       match sel with
       | none => "bad-op"
       | some sel =>
-        if spec then tapSpec internal scripts sel
-        else match Model.Tap.run Model.Tap.glueCtx noBech "" internal scripts sel with
+        if spec then tapSpec hrp internal scripts sel
+        else if !Model.Tap.hrpOk hrp then "ERR invalid-hrp"          -- main() refuses the prefix before anything else
+        else match Model.Tap.run Model.Tap.glueCtx Model.Tap.bech32mAddress hrp none internal scripts sel with
           | .error e => tapErrStr e
           | .ok o => tapOutStr o
     | _, _, _ => "bad-op"
   match a with
-  | [k, sc, ix] => go k sc ix "-"
-  | [k, sc, ix, ar] => go k sc ix ar
-  | [k, sc, ix, ar, _hrp] => go k sc ix ar
+  | [k, sc, ix] => go k sc ix "-" "bcrt"
+  | [k, sc, ix, ar] => go k sc ix ar "bcrt"
+  | k :: sc :: ix :: ar :: hrp :: _ =>      -- further words (how the check funded the input) are not for the driver
+    if hrp == "-" then go k sc ix ar ""
+    else match ofHex hrp with
+      | some b => go k sc ix ar (Model.strOfBytes b)
+      | none => "bad-op"
   | _ => "bad-op"
 
 def cmdTapArgs (_spec : Bool) (a : List String) : String :=
   match wordsOf a with
   | none => "bad-op"
   | some ws =>
-    match Model.Tap.mainArgs Model.Tap.glueCtx vcx noBech "" ws with
+    match Model.Tap.mainArgs Model.Tap.glueCtx vcx Model.Tap.bech32mAddress "bcrt" ws with
     | .ok o => tapOutStr o
     | .error .usage => "USAGE"
+    | .error .prefix => "ERR invalid-hrp"
     | .error .keyHex => "ERR key-hex"
     | .error .missingScripts => "ERR missing-scripts"
     | .error (.value e) => "VALUE " ++ vmStr e
     | .error (.tap e) => tapErrStr e
+
+/-- TAPSIGHASH <tx> <txin> -/
+def cmdTapSighash (spec : Bool) (a : List String) : String :=
+  match a with
+  | [txh, txinh] =>
+    match sghTx txh, sghTx txinh with
+    | some tx, some txin =>
+      match Model.parseInputTransaction Model.Tap.glueHashCtx tx txin (-1) with
+      | none => "ERR parse_input_transaction"
+      | some (idx, vout) =>
+        if spec then
+          match tx.vin[idx]?, txin.vout[vout]? with
+          | some inp, some o =>
+            if tx.vin.length != 1 then "N/A"
+            else
+              let w := inp.witness
+              let hasAnnex := w.length ≥ 2 && (match w.getLast? with | some (t :: _) => t.toNat == 0x50 | _ => false)
+              let annex : Option Bytes := if hasAnnex then w.getLast? else none
+              let st := if hasAnnex then w.dropLast else w
+              let ext : Option Spec.TapExt :=
+                if st.length ≤ 1 then none
+                else
+                  let control := st.getLast?.getD []
+                  let script := st.dropLast.getLast?.getD []
+                  let c0 := (control.headD 0).toNat
+                  some { leafHash := Spec.tapLeafHash Glue.tapOracle (c0 - c0 % 2) script, codesepPos := 0xffffffff }
+              toHex (Spec.bip341Digest Crypto.sha256 tx idx 0 [o] annex ext)
+          | _, _ => "ERR parse_input_transaction"
+        else
+          match Model.Tap.calcSighash Model.Tap.glueHashCtx Glue.tapCtx Model.stdCrypto tx txin idx vout with
+          | .ok h => toHex h
+          | .error .configure => "ERR configure_tx_txin"
+          | .error .failed => "ERR failed"
+          | .error (.step e) => sghErr e
+    | _, _ => "bad-op"
+  | _ => "bad-op"
 
 end Driver
